@@ -23,12 +23,12 @@ CHECKS = {
  "C18": dict(
    level="exploration", design="DESIGN.md §2 C18",
    technique="property-based testing (proptest): grammar-generated argument vectors, differential against real git (GIT_TRACE dispatch/alias expansion), recording git stand-in end-to-end",
-   text="Generated argument vectors and alias tables; the in-process parser's reconstruction must be the identity, or (only with a top-level help/version token) a vector that real git treats identically (exit, stdout, stderr compared on twin scratch repositories); the parser's sub-command and git-ai's alias resolution are compared with what real git dispatches/expands per GIT_TRACE; a sample of vectors is run through the real wrapper with a recording stand-in as git_path and the proxied argv compared.",
+   text="Generated argument vectors and alias tables (fixed pool plus alias values generated over git's quoting forms: single/double-quoted sections with backslashes and the other quote inside, escapes outside quotes, empty quotes); the in-process parser's reconstruction must be the identity, or (only with a top-level help/version token) a vector that real git treats identically (exit, stdout, stderr compared on twin scratch repositories); the parser's sub-command and git-ai's alias resolution are compared with what real git dispatches/expands per GIT_TRACE; a sample of vectors is run through the real wrapper with a recording stand-in as git_path and the proxied argv compared.",
    note="Reference = git 2.39.5 in a scratch repository. Token pools are finite (grammar in c18.rs). Known findings F11, F20, F23, F24 are matched by root-cause signature; everything outside those families is strict."),
  "C16": dict(
    level="exploration", design="DESIGN.md §2 C16",
    technique="property-based testing (proptest, in-process): model-based derivation pipeline + arbitrary inputs; invariants and metamorphic relations on the tracker API",
-   text="In-process generated search against the library entry points. Pipeline family: files derived edit by edit with known ground truth, replaying the real checkpoint pipeline (fill -> update_attributions -> line projection) after every edit and comparing every line with a content-addressed reference model (unchanged text keeps its author, new non-blank text belongs to the reporter, whitespace-only edits change nothing), plus identical-text invariance, bounds / char-boundary checks and the line->char->line round trip. Arbitrary family: unrelated UTF-8 texts and arbitrary prior sets for totality and bounds. 100k cases quick, 3M thorough.",
+   text="In-process generated search against the library entry points. Pipeline family: files derived edit by edit with known ground truth, replaying the real checkpoint pipeline (fill -> update_attributions -> line projection) after every edit and comparing every line with a content-addressed reference model (unchanged text keeps its author, new non-blank text belongs to the reporter, whitespace-only edits change nothing), plus identical-text invariance, bounds / char-boundary checks, the line->char->line round trip and a fill oracle (attribute_unattributed_ranges keeps every prior and adds ranges covering exactly the characters no prior touches). Arbitrary family: unrelated UTF-8 texts and arbitrary prior sets for totality and bounds. 100k cases quick, 3M thorough.",
    note="Links /repo's library. Identical-text clause is evaluated on canonically sorted priors (tie-break by input order is not claimed). Among duplicate (filler) lines a whitespace edit that creates an off-diagonal equal line is judged weakly (documented R2 guard). Known findings F14/F14b/F15/F25 matched by signature."),
  "C02": dict(
    level="exploration", design="DESIGN.md §2 C02",
@@ -58,48 +58,48 @@ CHECKS = {
  "C20": dict(
    level="exploration", design="DESIGN.md §2 C20",
    technique="structure-aware fuzzing by property-based generation (proptest): per-preset valid hook payload templates mutated structurally, crossed with generated file locations, repository layouts and delivery channel; validity oracle over exit status, stderr and every repository's working log",
-   text="For every agent preset (claude, codex, gemini, continue-cli, cursor, github-copilot, amp, ai_tab, agent-v1, droid, opencode, unknown name; pre- and post-edit events) a payload carrying every key any preset reads is mutated (truncation at any byte, key deletion, type swaps, nesting, duplicate key, 70 kB-3 MB strings, BOM, non-JSON, empty object) and sent by argument or stdin; path fields cover relative/absolute/`..`/symlink/missing/directory/outside/other-repository; layouts: single, nested, multi-repository workspace, sibling repositories, bare, none; transcript files and the Cursor/OpenCode/Amp side stores are valid, empty, garbage or missing. Oracle: exit 0, no panic banner, terminates; every working-log line is JSON, --show-working-log succeeds, every recorded file lies in the work tree of the log's repository and in no more deeply nested one, nothing is created outside repositories, a wrapped commit still succeeds.",
-   note="The property says 'only in the repository that contains the file', so the oracle judges where entries appear, not that an entry must appear (counted as a class instead). Hangs are reported as inconclusive (exit 2). Linked worktrees are not generated."),
+   text="For every agent preset (claude, codex, gemini, continue-cli, cursor, github-copilot, amp, ai_tab, agent-v1, droid, opencode, unknown name; pre- and post-edit events) a payload carrying every key any preset reads is mutated (truncation at any byte, key deletion, type swaps, nesting, duplicate key, 70 kB-3 MB strings, BOM, non-JSON, empty object) and sent by argument or stdin; path fields cover relative/absolute/`..`/symlink/missing/directory/outside/other-repository; layouts: single, nested, multi-repository workspace, non-repository workspace holding a repository with a nested repository, sibling repositories, bare, none; path fields also as `file://` URIs (plain, percent-encoded, with stray/truncated escapes); Copilot's VS Code native hook events; transcript files and the Cursor/OpenCode/Amp side stores are valid, empty, garbage or missing. Oracle: exit 0, no panic banner, terminates; every working-log line is JSON, --show-working-log succeeds, every recorded file lies in the work tree of the log's repository and in no more deeply nested one, nothing is created outside repositories, a wrapped commit still succeeds; for agent-v1 (payload = plain list of edited files) the recorded (repository, file) pairs must not change when the order of the files in the payload is reversed (metamorphic clause, also over a fixed grid of layouts x path-class pairs).",
+   note="The property says 'only in the repository that contains the file', so the oracle judges where entries appear; that an entry must appear is only demanded relatively (order independence for agent-v1). Hangs are reported as inconclusive (exit 2). Linked worktrees are not generated."),
  "C19": dict(
    level="exploration", design="DESIGN.md §2 C19",
    technique="property-based testing (proptest): generated histories; `git-ai stats --json` of every commit vs independent computations from git numstat, an own -U0 diff parse and the note",
-   text="Every commit (root, ordinary, merge, rewritten) of generated histories enriched with default-ignored files, a binary file, pure deletions, several sessions per file and human-overridden AI lines is checked: diff totals equal git's numstat minus ignored paths; accepted AI lines equal the lines the commit adds that its note lists; human + accepted = added; ai_additions = accepted + mixed <= added; per-tool sums equal the totals.",
+   text="Every commit (root, ordinary, merge, rewritten) of generated histories enriched with default-ignored files, a binary file, pure deletions, several sessions per file and human-overridden AI lines is checked: diff totals equal git's numstat minus ignored paths; accepted AI lines equal the lines the commit adds that its note lists; human + accepted = added; ai_additions = accepted + mixed <= added; per-tool sums equal the totals. Sessions 0 and 1 are two conversations of the same tool and model (one `tool::model` key, two session hashes); every commit with an attested file is additionally queried with `--ignore <that file>`, where diff totals and accepted lines must both drop the file.",
    note="The ignore set is restricted to default patterns with unambiguous glob semantics. Reference numstat is `git show --numstat -z --no-renames` with a clean configuration."),
  "C13": dict(
    level="exploration", design="DESIGN.md §2 C13",
    technique="differential property-based testing (proptest): the same generated history executed through the wrapper and through git-hooks mode with pinned dates; notes and blame compared commit by commit",
-   text="One generated history is executed in two sandboxes with identical pinned dates - through the git-ai wrapper, and with plain git plus git-ai's managed repository hooks - so commit ids coincide; attestation sets of every commit and `git-ai blame --json` of every file at every branch tip must be equal.",
-   note="Canonical (set) comparison of notes. Histories whose git state diverges between the modes are counted and not judged (C06's domain). Known findings F32, F34 (wrapper-only) and F35 (hooks-only) matched by signature."),
+   text="One generated history is executed in two sandboxes with identical pinned dates - through the git-ai wrapper, and with plain git plus git-ai's managed repository hooks - so commit ids coincide; attestation sets of every commit (rewritten commits: on the lines the commit adds) and `git-ai blame --json` of every file at every branch tip must be equal. A quarter of the history blocks are multi-commit topic/upstream 'rewrite scenarios'.",
+   note="Canonical (set) comparison of notes. Histories whose git state diverges between the modes are counted and not judged (C06's domain). Known findings F32, F34, F47 (wrapper-only), F35, F45, F46 (hooks-only) and the shared ones matched by signature; differences confined to never-consulted surplus lines of cumulative slow-path notes are counted, and differences on intermediate rewritten commits are keyed to F5."),
  "C14": dict(
    level="exploration", design="DESIGN.md §2 C14",
    technique="metamorphic property-based testing (proptest): a generated history H and a generated redundant-step transformation tau(H) executed in twin sandboxes; notes and blame must coincide",
-   text="A base history of human/agent edits and (partial) commits is run unchanged and with a generated transformation that inserts extra human checkpoints, verbatim repetitions of the preceding checkpoint, read-only git commands, and splits multi-line agent insertions into consecutive partial writes with their own checkpoints. Pinned dates give identical commit ids; attestation sets of every commit and `git-ai blame --json` of every file must be identical.",
+   text="A base history of human/agent edits and (partial) commits is run unchanged and with a generated transformation that inserts extra human checkpoints, verbatim repetitions of the preceding checkpoint, read-only git commands, splits multi-line agent insertions into consecutive partial writes with their own checkpoints, and in half of the cases applies a systematic transformation (an explicit human checkpoint after every human edit / every agent checkpoint repeated / a read-only command after every edit). Edit pool includes a person throwing away everything the agents wrote (reject-and-rewrite block). Pinned dates give identical commit ids; attestation sets of every commit and `git-ai blame --json` of every file must be identical.",
    note="Repetition is only inserted directly after the checkpoint it repeats (the property's 'no intervening change'). Intra-line pure deletions are not generated (F14 is schedule-dependent by construction). Findings F36 and F25 are matched by signature."),
  "C15": dict(
    level="exploration", design="DESIGN.md §2 C15",
    technique="differential property-based testing (proptest): generated rebase/cherry-pick scenarios executed with the shortcut enabled and with it forced off by the verification hook; notes/blame compared, content-addressed model as arbiter",
-   text="Scenarios biased toward the shortcut's precondition (upstream changes confined to files no AI commit touches, plus variants where it fails for some pair, counts differ, a commit lacks a note) run twice with pinned dates: normally and with GIT_AI_VERIF_NO_FAST_PATH=1. For every rewritten commit the attestations restricted to the lines it adds, the prompt records of referenced sessions and the base must agree; blame at every tip must agree. Whether the shortcut ran is read from its debug log line.",
+   text="Scenarios biased toward the shortcut's precondition (topic commits on one or two AI files, upstream changes confined to files no AI commit touches, plus variants where it fails for some pair, counts differ, commits are reordered / squashed / fixed up / dropped, a commit lacks a note) run twice with pinned dates: normally and with GIT_AI_VERIF_NO_FAST_PATH=1. For every rewritten commit the attestations restricted to the lines it adds, the prompt records of referenced sessions and the base must agree; blame at every tip must agree. Whether the shortcut ran is read from its debug log line.",
    note="Uses the guarded hook (env switch) in rebase_authorship.rs. Lines with more than one admissible author (white space re-touched across commits, conflict resolutions, filler) are excluded. A difference in which the copied note agrees with the model and the full algorithm does not is finding F37; differences on intermediate commits are finding F5."),
  "C12": dict(
    level="exploration", design="DESIGN.md §2 C12",
    technique="differential property-based testing (proptest): the same generated history under the baseline environment and under a generated subset of text-affecting git settings / invocation contexts; notes, blame and stats compared per commit",
-   text="A generated history (plain and unusual file names, new files and directories) is executed twice with pinned dates: in the baseline sandbox, and under 1-8 settings drawn from a 66-entry catalogue of configuration values that change only what git prints (global or local scope), environment forms (GIT_EXTERNAL_DIFF, GIT_DIFF_OPTS, GIT_PAGER) and an invocation context (root, sub-directory, -C <abs>, chained -C). Attestation sets per commit, `blame --json` per file and tip, and `stats --json` per commit must equal the baseline's.",
-   note="Settings that legitimately change history or blame are excluded by construction. Linked worktrees are not generated. Twins whose git state diverges are counted, not judged."),
+   text="A generated history (plain and unusual file names, new files and directories, partial commits by file and by hunk incl. a 'sandwich' block where the committed hunk lies between unstaged hunks) is executed twice with pinned dates: in the baseline sandbox, and under 1-9 settings drawn from an 83-entry catalogue (biased toward the settings that change which hunks `git diff` reports) of configuration values that change only what git prints (global or local scope), environment forms (GIT_EXTERNAL_DIFF, GIT_DIFF_OPTS, GIT_PAGER) and an invocation context (root, sub-directory, -C <abs>, chained -C). Attestation sets per commit, `blame --json` per file and tip, and `stats --json` per commit must equal the baseline's.",
+   note="Settings that legitimately change history or blame are excluded by construction. Linked worktrees are not generated. Twins whose git state diverges are counted, not judged. The harness's own `git diff` calls pin every hunk-shaping option, so the generated configuration cannot change how the harness stages hunks."),
  "C06": dict(
    level="exploration", design="DESIGN.md §2 C06",
    technique="differential property-based testing (proptest): generated git command sequences run against real git and through the git-ai wrapper in twin sandboxes; exit status, stdout and a repository-state digest compared after every command",
-   text="Twin sandboxes (real git / wrapper) with aliases, a bare remote and a generated subset of user hooks execute the same 5-25 steps: git command lines from ~170 templates (porcelain, plumbing, global options, aliases incl. recursive and shell, remote operations, invalid invocations) and human/agent edits (agent checkpoints only behind the wrapper). After every command exit status, stdout (byte-wise) and the digest of HEAD, refs outside git-ai's namespaces, index, status, working-tree bytes, stash, in-progress state, user-hook log, remote refs, local config and hook directory must be equal.",
-   note="stderr is not compared (outside the property); no pty, so tty-only output never occurs; commands that enumerate every ref/object, `ls-remote`, and blame of uncommitted lines (prints the time of day) are not generated."),
+   text="Twin sandboxes (real git / wrapper) with aliases, a bare remote and a generated subset of user hooks execute the same 5-25 steps: git command lines from ~170 templates (porcelain, plumbing, global options, aliases incl. recursive and shell, remote operations, invalid invocations), 35 stdin-fed commands (--pathspec-from-file=-, -F -, --stdin, --batch ...), and a flag grammar over every hooked command run in a generated invocation context (sub-directory, GIT_* environment, standard input a pseudo-terminal while stdout is captured) and human/agent edits (agent checkpoints only behind the wrapper). After every command exit status, stdout (byte-wise) and the digest of HEAD, refs outside git-ai's namespaces, index, status, working-tree bytes, stash, in-progress state, user-hook log, remote refs, local config and hook directory must be equal.",
+   note="stderr is not compared (outside the property); stdout is always a pipe (a pty is used for stdin only), so the two tty-only outputs never occur; a difference is reported only if two fresh pairs of twins reproduce it (git's own output can depend on racily-clean index entries); commands that enumerate every ref/object, `ls-remote`, and blame of uncommitted lines (prints the time of day) are not generated."),
  "C07": dict(
    level="fault_enumeration", design="DESIGN.md §2 C07",
    technique="fault injection driven by property-based generation: a git stand-in (git_path) fails / returns garbage / kills the wrapper at the k-th internal git call (sampled in quick, every k in thorough) and generated corruptions of .git/ai; differential against a plain-git twin",
-   text="For generated pre-states and 13 hooked target commands the number N of internal git calls is learnt, then the command is re-run from byte copies of the pre-state once per (k, mode) fault - quick: 8-12 sampled k, thorough: all k x {fail, garbage, kill} - and once per generated corruption of git-ai's private files. Each run must be transparent w.r.t. a plain-git twin (exit, stdout, state digest) or a clean refusal (git never started, non-zero, diagnostic, state untouched); a fixed un-faulted follow-up must behave like the twin's, all notes must still parse and blame must not report as AI anything the un-faulted run does not.",
+   text="For generated pre-states and 13 hooked target commands the number N of internal git calls is learnt, then the command is re-run from byte copies of the pre-state once per (k, mode) fault - quick: 36-44 sampled (k, mode), thorough: all k x {exit 97, exit 128 + 'fatal:', bare exit 1, success with empty output, SIGKILL of the wrapper} - and once per generated corruption of git-ai's private files. Each run must be transparent w.r.t. a plain-git twin (exit, stdout, state digest) or a clean refusal (git never started, non-zero, diagnostic, state untouched); a fixed un-faulted follow-up must behave like the twin's, all notes must still parse, every commit that had a note before the command and still exists must still have one, and blame must not report as AI anything the un-faulted run does not.",
    note="Crash points are git-subprocess boundaries plus file-level corruption of .git/ai, not arbitrary instructions. The stand-in distinguishes the proxied call by GITAI_SKIP_MANAGED_HOOKS=1. Remote operations (push/fetch/pull) are not among the targets. A later commit that refuses cleanly while the corruption persists is accepted (counted)."),
  "C08": dict(
    level="exploration", design="DESIGN.md §2 C08",
-   technique="enumeration of configuration x note-writing path x agent kind (220 scenarios) plus property-based generation of transcripts with planted canaries and secrets; byte search of every blob of every historical notes commit",
-   text="Every combination of 10 prompt-storage configurations, 11 note-writing paths and 2 agent kinds (inline transcript / transcript re-fetched from a JSONL file) is executed through the real wrapper with a transcript whose every message carries a unique canary and, for text messages, planted high-entropy tokens; generated combinations with generated transcripts are added. All blobs of all commits of refs/notes/ai are searched: without the notes opt-in no canary may occur; with it the middle of every planted secret must be masked (and canaries do occur - measured).",
-   note="'High-entropy' is delegated to the library's own classifier (secrets::is_random), linked in-process: the claim tested is that every path applies the policy to every message, not the detector's statistics. pull --rebase and `git-ai squash-authorship` paths are not included."),
+   technique="enumeration of configuration x note-writing path x agent kind (240 scenarios) plus property-based generation of transcripts with planted canaries and secrets; byte search of every blob of every historical notes commit",
+   text="Every combination of 10 prompt-storage configurations, 12 note-writing paths (incl. the CI rewrite `git-ai squash-authorship` of a server-side squash merge) and 2 agent kinds (inline transcript / transcript re-fetched from a JSONL file) is executed through the real wrapper with a transcript whose every message carries a unique canary and, for text messages, planted high-entropy tokens; generated combinations with generated transcripts are added, four fifths of them over generated histories (partial commits by file and hunk, amends, rebases, cherry-picks, squash merges, resets, stash round trips, CI rewrites). All blobs of all commits of refs/notes/ai are searched: without the notes opt-in no canary may occur; with it the middle of every planted secret must be masked (and canaries do occur - measured).",
+   note="'High-entropy' is delegated to the library's own classifier (secrets::is_random), linked in-process: the claim tested is that every path applies the policy to every message, not the detector's statistics. pull --rebase is not included."),
  "C10": dict(
    level="exploration", design="DESIGN.md §2 C10",
    technique="stateful property-based testing (proptest): generated schedules of commit/push/fetch/pull steps by 2-3 clones of one bare remote; ledger-based safety invariant after every step and convergence check after the closing phase",
@@ -107,9 +107,9 @@ CHECKS = {
    note="Steps are atomic (one git process at a time). Clones edit disjoint files so that branch merges/rebases never conflict textually."),
  "C11": dict(
    level="exploration", design="DESIGN.md §2 C11",
-   technique="schedule exploration: the harness owns the interleaving through guarded sync points (exhaustive enumeration of the two-process checkpoint schedules, proptest-sampled schedules for the other scenarios); oracle = equality with some serial execution",
-   text="Real git-ai processes (agent checkpoints, a wrapped commit, a rebase in a linked worktree) are started with the verification sync directory set; each parks before the read and before the write of every journal update and before every notes update, and a controller releases them one at a time following a generated schedule (all 16 schedules of the two-process checkpoint scenarios in every run). The observable outcome - attestation set of every note, blame of every file in every worktree after a final commit, parseability of journals - must equal the outcome of running the same processes one after another in some order from the same initial state.",
-   note="Uses the guarded hook `verif::sync_point` (feature verif-hooks). Only interleavings at instrumented points are controlled; a process that does not reach a point within 1.5 s is treated as blocked (lock) - a scheduling signal, never a verdict. Two defects found this way were repaired (journal lock, batch notes retry)."),
+   technique="schedule exploration: the harness owns the interleaving through guarded sync points at the storage primitives (enumeration of all schedules with at most two context switches for the two-process scenarios, proptest-sampled schedules for the others, free-running repetitions); oracle = equality with some serial execution",
+   text="Real git-ai processes (agent checkpoints, a wrapped commit, a rebase in a linked worktree) are started with the verification sync directory set; each parks before every read and write of checkpoints.jsonl / INITIAL, around the journal read-modify-write, before every notes update and before working-log delete/rename/reset, and a controller releases them one at a time following a schedule: all schedules with at most two context switches for the two-process scenarios (k0/k1 over the points each process really has), proptest-sampled choice sequences, plus free-running runs without a controller. The observable outcome - attestation set of every note, blame of every file in every worktree after a final commit, parseability of journals - must equal the outcome of running the same processes one after another in some order from the same initial state.",
+   note="Uses the guarded hook `verif::sync_point` (feature verif-hooks). Only interleavings at instrumented points are controlled; a process that does not reach a point within 1.5 s is treated as blocked (lock) - a scheduling signal, never a verdict. Two defects found this way were repaired (journal lock, batch notes retry); a third (checkpoint racing a commit in the same worktree, F39) is recorded."),
 }
 
 NOT_YET = "check not built yet (work in progress; see DESIGN.md section 2 for the plan)"
